@@ -12,3 +12,14 @@ Theorem C05_named_lookup : forall G W vars fuel f st ids a a',
   exec_child G W vars fuel f st ids a = Ok a' -> Forall named (a_errors a) -> Forall named (a_errors a').
 Proof. exact exec_child_named. Qed.
 Print Assumptions C05_named_lookup.
+
+(* ... and so, at the level of the whole gateway model: whatever the generation, world, operation, variables, permission set,
+   limit and fuel, every error of a downstream kind (relayed GraphQL error, timeout, other transport or protocol failure) in
+   the response names the service that failed; the errors that do not are the gateway's own (permission, null propagation,
+   internal). *)
+From V Require Import Model.Perm Proofs.ExecGatewayNamed.
+Theorem C05_every_downstream_error_names_its_service : forall G fschema W op vars P max fuel oc,
+  gateway G fschema W op vars P max fuel = Ok oc ->
+  Forall (fun e => downstream_kind (ge_kind e) = true -> ge_service e = true) (r_errors (oc_response oc)).
+Proof. exact gateway_errors_named. Qed.
+Print Assumptions C05_every_downstream_error_names_its_service.
